@@ -7,8 +7,10 @@ export GOFLAGS=-mod=mod GOPROXY=off GOSUMDB=off GOTOOLCHAIN=local
 if ! git -C /repo diff --quiet; then echo "/repo is not clean"; exit 2; fi
 if ! git -C /repo apply "$patch"; then echo "patch does not apply"; exit 2; fi
 trap 'git -C /repo checkout -- . ; git -C /repo clean -fdq' EXIT
-if (cd /repo && go test -vet=off -count=1 ./... >/tmp/mutant-suite.log 2>&1); then suite=pass; else suite=FAIL; fi
+# (with a time limit: a change that makes the parallel subtests hang must not stall everything)
+if (cd /repo && timeout 300 go test -vet=off -count=1 -timeout 240s ./... >/tmp/mutant-suite.log 2>&1); then suite=pass; else suite=FAIL; fi
 echo "suite: $suite"
+if [ $suite = FAIL ]; then echo "the repository's suite fails (or hangs) with this change: not a valid seeded change; checks not run"; exit 3; fi
 for p in "$@"; do
   start=$(date +%s)
   /verif/bin/vsim check $p --tier $tier > /tmp/mutant-$p.log 2>&1
